@@ -12,21 +12,22 @@ LEAN_TARGETS = ["Asynkit.Props.C19", "Asynkit.Lemmas.GenEq", "Asynkit.Lemmas.Gen
 PROPS_FILES = ["Asynkit/Props/C19.lean", "Asynkit/Lemmas/GenEq.lean", "Asynkit/Lemmas/GenEqPosPQ.lean", "Asynkit/Lemmas/GenEqPQ.lean"]
 DRIVERS = ["PQ"]
 TRUSTED = [
-    "Lean 4.33 kernel; axioms ⊆ {propext, Classical.choice, Quot.sound} (audited per theorem each run)",
-    "hand-written model Asynkit/Model/PosPQ.lean (update_counters, do_maintenance, boost_stragglers, "
-    "compute_priority_boost), tied to src/asynkit/experimental/priority.py by this run's differential "
-    "correspondence (counters, boosts and pop order after every operation)",
-    "translator/py2lean.py regenerates update_counters / compute_priority_boost / PriorityValue.__lt__ from the "
-    "source; Lemmas/GenEq.lean proves them equal to the model's definitions",
-    "translator/pospq2lean.py re-translates the whole PosPriorityQueue class (do_maintenance and boost_stragglers "
-    "loops included) on each run; Lemmas/GenEqPosPQ.lean proves each generated method equal to Model/PosPQ "
-    "(trusted: the statement-level translator, the self._pq.<m> -> PQ.<m> binding, by-value PriorityValue objects, "
+    'Lean 4.33 kernel; axioms ⊆ {propext, Classical.choice, Quot.sound} (audited per theorem each run)',
+    'Asynkit/Model/PosPQ.lean is no longer trusted as a transcription (next entry); it is still run against the '
+    "code by this run's differential correspondence (counters, boosts and pop order after every operation, "
+    'lean/Drivers/PQ.lean)',
+    'translated, not trusted: the whole PosPriorityQueue class - update_counters, do_maintenance and '
+    'boost_stragglers (loops included), compute_priority_boost, PriorityValue.__lt__, append/insert/popleft - and'
+    ' the underlying tools.PriorityQueue are re-translated on each run (translator/pospq2lean.py, pq2lean.py -> '
+    'Gen/PosPQ.lean, Gen/PQ.lean) and proved equal to Model/PosPQ and Model/PQ (Lemmas/GenEqPosPQ.lean 41, '
+    'GenEqPQ.lean 29 theorems; PriEntry.__lt__ by Lemmas/GenEq.lean, 1 theorem); trusted there: '
+    'Model/PosPQRt.lean and Model/PyRt.lean (statement-level reading of Python, by-value PriorityValue objects, '
     "the random draw named by the entry's sequence number)",
-    "priorities are exact rationals in the model, floats in the code: compared with a relative tolerance of 1e-9 "
-    "(inputs are dyadic, so most cases are exact); pop orders are compared only when no two regular priorities "
-    "of the model lie within 1e-6 of each other",
-    "random.random() is replaced by a fixed value in (0,1) per case",
-    "heapq meets its documented contract (HeapLib.Lawful)",
+    'priorities are exact rationals in the model, floats in the code: compared with a relative tolerance of 1e-9 '
+    '(inputs are dyadic, so most cases are exact); pop orders are compared only when no two regular priorities of'
+    ' the model lie within 1e-6 of each other',
+    'random.random() is replaced by a fixed value in (0,1) per case',
+    'heapq meets its documented contract (HeapLib.Lawful)',
 ]
 ASSUMPTIONS = ["the random draw lies in [0,1)", "priority_boost_factor >= 0"]
 RULE = ("a case = prior history (random ops of length 0..5000, queue drained to empty 0..3 times) followed by a "
